@@ -6,6 +6,7 @@ harness/c02.py).  Proofs are in `Verif.C02.Lemmas`; this file states the clauses
 -/
 import Verif.C02.Model
 import Verif.C02.Lemmas
+import Verif.C02.PLemmas
 
 namespace Verif.C02
 open Verif.Codec Verif.Py
@@ -179,15 +180,34 @@ theorem sortinfo_formats_suppression (o : Opts) (d : DMRS) :
   obtain ⟨op, ol⟩ := o
   cases op <;> cases ol <;> simp [viewJ, viewX, viewNodeJ, viewNodeX, List.map_map, Function.comp_def]
 
-/-- DMRX tree round trip (`xml.etree` is a parameter).
-FULL STATEMENT (not proved): the same without `hp`.  The missing hypothesis is `PredRT p` for SURFACE
-predicates — that `predicate.create(*predicate.split(p))` gives back a normalised `_lemma_pos(_sense)`
-string; it is proved for abstract predicates (`predRT_gpred` below) and compared with the real
-`_encode_pred`/`_decode_pred` on every generated predicate. -/
+/-- "decoding its … DMRX … encoding yields the same node identifiers, predicates, node types, properties,
+constants, surface alignments, links … and top/index": tree round trip (`xml.etree` is a parameter).
+`viewX` is the identity on these fields up to the representation of a missing alignment as `<-1:-1>` and the
+suppressed information (`sortinfo_formats_suppression`). -/
+theorem dmrx_roundtrip (o : Opts) (d : DMRS) (hwf : d.WF) (hx : ExpressibleX d) :
+    ∃ x, toXml o d = .ok x ∧ ofXml x = .ok (viewX o d) :=
+  ofXml_toXml o d hwf hx (fun n hn => predRT_of_normal n.pred (hx.1 n hn).predNorm (hx.1 n hn).predNe)
+
+/-- the same with the predicate round trip as an explicit hypothesis (round-1 form, kept) -/
 theorem dmrx_roundtrip_partial (o : Opts) (d : DMRS) (hwf : d.WF) (hx : ExpressibleX d)
     (hp : ∀ n ∈ d.nodes, PredRT n.pred) :
     ∃ x, toXml o d = .ok x ∧ ofXml x = .ok (viewX o d) :=
   ofXml_toXml o d hwf hx hp
+
+/-- `predicate.create(*predicate.split(p))` gives back a normalised surface predicate `_lemma_pos(_sense)`:
+it survives `<realpred lemma pos sense>` -/
+theorem dmrx_realpred_roundtrip (p : Str) (hn : normalizePred p = p) (hs : isSurface p = true) : PredRT p :=
+  predRT_surface p hn hs
+
+/-- "re-encoding reproduces the text", at the level of the tree / dictionary the encoders build (the text
+layout itself is `xml.etree`'s and `json`'s): re-encoding the decoded graph builds the same tree … -/
+theorem dmrx_stable_tree (o : Opts) (d : DMRS) : toXml o (viewX o d) = toXml o d :=
+  toXml_view o d
+
+/-- … and the same dictionary (alignments being character spans or absent, as DMRS-JSON can only write those). -/
+theorem dmrsjson_stable_dict (o : Opts) (d : DMRS) (hn : ∀ n ∈ d.nodes, SpanOrNone n.lnk) (hg : SpanOrNone d.lnk) :
+    toDict o (viewJ o d) = toDict o d :=
+  toDict_view o d hn hg
 
 /-- an abstract predicate in normal form survives `<gpred>` -/
 theorem dmrx_gpred_roundtrip (p : Str) (hn : normalizePred p = p) (hne : p ≠ []) (hs : isSurface p = false) :
@@ -201,14 +221,42 @@ example : PredRT (S "_rain_v_1") :=
 
 /-! ## DMRS-PENMAN -/
 
-/- FULL STATEMENT (not proved): for every `d` with `ExpressibleP d`,
-     `∃ ts, toTriples o d = .ok ts ∧ fromTriples ts = .ok (viewP o d)`
-   ("DMRS-PENMAN does the same for graphs connected from the top, up to the documented renumbering of node
-   identifiers", with the penman library as the identity on triple lists).  The model functions
-   `toTriples`/`fromTriples` are compared with the real `to_triples`/`from_triples` on every generated
-   graph, and `viewP` is what the direct oracle demands of the public API (up to the order in which the
-   penman library lists the nodes).  Proved below: the properties of the renumbering `renId` that the
-   statement relies on, and one concrete instance. -/
+/-- "DMRS-PENMAN does the same for graphs connected from the top, up to the documented renumbering of node
+identifiers" (the penman library as the identity on triple lists): decoding the triples written for `d` gives
+`viewP o d` = the part of `d` connected to the top (all of `d` when it is connected,
+`penman_connected_keeps_all`), top node first, identifiers renumbered by `renId` (next theorems), with the
+same predicates, types, constants, character-span alignments, property maps (in `sorted(property_priority)`
+order) and links; index, surface/base strings and graph-level lnk/surface/identifier are not part of the
+format.  The real penman library returns the nodes in tree order, so the public API agrees with `viewP` up to
+a further permutation of the numbering (that is what the direct oracle checks). -/
+theorem penman_roundtrip (o : Opts) (d : DMRS) (hx : ExpressibleP d) :
+    ∃ ts, toTriples o d = .ok ts ∧ fromTriples ts = .ok (viewP o d) :=
+  fromTriples_toTriples o d hx
+
+/-- the hypotheses are satisfiable: "the dog" with a quantifier link -/
+def dP : DMRS :=
+  { top := some 10001, index := none,
+    nodes := [{ id := 10000, pred := S "_the_q" }, { id := 10001, pred := S "_dog_n_1", type := some (S "x"), props := [(S "NUM", S "sg")], lnk := .charspan 4 7 }],
+    links := [⟨10000, 10001, some (S "RSTR"), some (S "H")⟩] }
+example : ExpressibleP dP where
+  nodes := by
+    intro n hn
+    simp [dP] at hn
+    rcases hn with h | h <;> subst h <;>
+      exact ⟨by decide, by decide, by decide, by decide, by simp⟩
+  links := by
+    intro l hl
+    simp [dP] at hl
+    subst hl
+    exact ⟨⟨S "RSTR", rfl, by decide, by decide⟩, ⟨S "H", rfl, by decide⟩, by
+      intro r p hr hp
+      simp at hr hp
+      subst hr hp
+      decide⟩
+  ids := by decide
+  ends := by decide
+  top := ⟨10001, rfl, by decide⟩
+  vars := by decide
 
 /-- "the documented renumbering": the top node becomes 10000 … -/
 theorem penman_renumber_top (d : DMRS) (t : Int) (ht : d.top = some t) (hmem : t ∈ d.nodes.map (·.id)) :
